@@ -1,3 +1,9 @@
 // Pasted into protocols/gossipsub/src/subscription_filter.rs (mod verif) under cfg(kani).
 #[allow(unused_imports)]
 use super::*;
+
+pub(crate) mod c36 {
+    #[allow(unused_imports)]
+    use super::super::*;
+    include!(concat!(env!("LIBP2P_VERIF"), "/units/C36/filters.rs"));
+}
